@@ -1426,6 +1426,78 @@ fn c19_set<D: ByteDev>(ctx: &mut Ctx) -> u64 {
     nontrivial
 }
 
+/// One-to-one, with the sequences taken from the decoder itself and not from the grammar: every byte stream of <= 3
+/// bytes on a fresh decoder in which only the LAST byte yields a result and that result is a key event is a "complete
+/// sequence as the decoder sees it"; no two different such streams may denote the same (key, press/release). This finds
+/// a second spelling that the grammar-driven enumeration above cannot name (e.g. prefixes accepted in either order).
+fn c19_selfderived<D: ByteDev>(ctx: &mut Ctx) {
+    let results = par_chunks(256, |b1| {
+        let b1 = b1 as u8;
+        let mut found: Vec<(String, Vec<u8>)> = vec![];
+        let mut n = 0u64;
+        let mut d1 = D::fresh();
+        let Ok(r1) = feed_guarded(&mut d1, b1) else { return (n, found) };
+        n += 1;
+        match r1 {
+            Ok(Some(e)) if e.state != KeyState::SingleShot => found.push((format!("{:?} {:?}", e.code, e.state), vec![b1])),
+            Ok(None) => {
+                for b2 in 0..=255u8 {
+                    let mut d2 = d1.clone();
+                    let Ok(r2) = feed_guarded(&mut d2, b2) else { continue };
+                    n += 1;
+                    match r2 {
+                        Ok(Some(e)) if e.state != KeyState::SingleShot => found.push((format!("{:?} {:?}", e.code, e.state), vec![b1, b2])),
+                        Ok(None) => {
+                            for b3 in 0..=255u8 {
+                                let mut d3 = d2.clone();
+                                let Ok(r3) = feed_guarded(&mut d3, b3) else { continue };
+                                n += 1;
+                                if let Ok(Some(e)) = r3 {
+                                    if e.state != KeyState::SingleShot {
+                                        found.push((format!("{:?} {:?}", e.code, e.state), vec![b1, b2, b3]));
+                                    }
+                                }
+                            }
+                        }
+                        _ => {}
+                    }
+                }
+            }
+            _ => {}
+        }
+        (n, found)
+    });
+    let mut by_event: BTreeMap<String, Vec<Vec<u8>>> = BTreeMap::new();
+    let mut total = 0u64;
+    for (n, found) in results {
+        total += n;
+        for (ev, seq) in found {
+            by_event.entry(ev).or_default().push(seq);
+        }
+    }
+    let mut dup = 0u64;
+    for (ev, seqs) in &by_event {
+        if seqs.len() > 1 {
+            dup += 1;
+            let names: Vec<String> = seqs.iter().map(|s| bytes_hex(s)).collect();
+            let mut parts = vec![];
+            for s in seqs.iter().take(3) {
+                parts.push((D::component(), s.iter().map(|x| Op::Byte(*x)).collect::<Vec<Op>>()));
+            }
+            ctx.violation(
+                &format!("{}/two-spellings/{}", D::component(), ev.replace(' ', "-")),
+                &format!("{}: the {} different complete sequences {} all decode to the same event {} (on a fresh decoder, no result before the last byte)", D::component(), seqs.len(), names.join(", "), ev),
+                Replay { parts, expected: "distinct complete sequences denote distinct events".into(), observed_last: None },
+            );
+        }
+    }
+    ctx.evaluations += total;
+    ctx.part(
+        &format!("self-derived:{} complete sequences of <= 3 bytes as the decoder itself defines them", D::component()),
+        json!({"engine": "B stream tree", "stream_positions_checked": total, "distinct_key_events": by_event.len(), "events_with_more_than_one_spelling": dup}),
+    );
+}
+
 pub fn c19(ctx: &mut Ctx) -> (u64, String) {
     let a = c19_set::<ScancodeSet2>(ctx);
     let b = c19_set::<ScancodeSet1>(ctx);
@@ -1434,6 +1506,8 @@ pub fn c19(ctx: &mut Ctx) -> (u64, String) {
     // a decoder obtained through Default::default() must pair makes and breaks like one built with new()
     other_constructors_check::<ScancodeSet2>(ctx, "constructors");
     other_constructors_check::<ScancodeSet1>(ctx, "constructors");
+    c19_selfderived::<ScancodeSet2>(ctx);
+    c19_selfderived::<ScancodeSet1>(ctx);
     ctx.sample_run("set2", &["byte:E0", "byte:70", "byte:E0", "byte:F0", "byte:70", "byte:83", "byte:F0", "byte:83"]);
     ctx.sample_run("set1", &["byte:60", "byte:E0", "byte:48", "byte:E0", "byte:C8"]);
     ctx.sample(json!({"set": 2, "make": ["E0", "70"], "break": ["E0", "F0", "70"], "check": "Insert Down <=> Insert Up"}));
